@@ -220,6 +220,42 @@ async def observe(gwy: Any, tr: Any, rec: Recorder, state: dict, verbose: bool =
                 break
     if not ok:
         return False  # the engine is paused: whatever a probe would show is a consequence
+    # 2b. nested misuse: a snapshot and a restore requested while a restore is in flight (it awaits the
+    #     replay inside its pause/resume bracket).  Whatever the nested call answers, it must leave the
+    #     engine exactly as it found it (paused by the outer restore), and the outer restore must still
+    #     end with the gateway running as before (Engine.tla: Start while Top.op = "restore" /\ pc = "body").
+    if pk is not None and state.get("n", 0) % 2 == 0:
+        outer_before = proj(gwy, tr)
+        task = asyncio.get_running_loop().create_task(gwy._restore_cached_packets(pk))
+        for _ in range(50):
+            if gwy._engine_state is not None or task.done():
+                break
+            await asyncio.sleep(0)
+        if gwy._engine_state is not None and not task.done():
+            for name in ("get_state", "restore"):
+                before = proj(gwy, tr)
+                try:
+                    if name == "get_state":
+                        gwy.get_state()
+                    else:
+                        await asyncio.wait_for(gwy._restore_cached_packets(pk), timeout=300)
+                    res = "ok"
+                except Exception as err:  # noqa: BLE001
+                    res = type(err).__name__
+                after = proj(gwy, tr)
+                rec.add("nested", name, res, before, after, detail="while a restore is in flight")
+        try:
+            await asyncio.wait_for(task, timeout=600)
+            res = "ok"
+        except Exception as err:  # noqa: BLE001
+            res = type(err).__name__
+            if verbose:
+                print(f"    restore (with nested calls) raised {res}: {str(err)[:120]}")
+        await vloop.drain()
+        after = proj(gwy, tr)
+        rec.add("op", "restore", res, outer_before, after, detail="outer restore of a nested pair")
+        if after != outer_before:
+            return False
     if not nodisc:
         gwy.config.disable_discovery = True
     # 3. probes: still receiving, still tracking what it knows, still able to send
